@@ -943,6 +943,9 @@ class Ctx:
         r = self._safe_check(z3.Not(t))
         model = self.solver.model() if r == z3.sat else None
         backend = 'z3-inproc-incremental'
+        if model is not None and not self._model_satisfies(model, z3.Not(t)):
+            # the incremental sequence solver sometimes answers sat with an assignment that falsifies the query: not a verdict
+            r, model = z3.unknown, None
         if r == z3.unknown:
             r, model = self._fresh_check(z3.Not(t), self.ex.check_timeout_ms)
             backend = 'z3-inproc-oneshot'
@@ -963,6 +966,16 @@ class Ctx:
             ob.smt2 = '(set-logic ALL)\n' + s2.to_smt2()
         if not meta.get('no_assume'):
             self.assume(cond)
+
+    def _model_satisfies(self, m: Any, query: Any) -> bool:
+        """A `sat` answer is kept only if its model does not evaluate the query (or a path-condition conjunct) to false."""
+        try:
+            for c in [query] + list(self.pc):
+                if z3.is_false(m.eval(c, model_completion=True)):
+                    return False
+        except z3.Z3Exception:
+            pass
+        return True
 
     def cover(self, name: str) -> None:
         """Reachability canary: this point must be reachable on some path."""
